@@ -2,6 +2,7 @@ import Mathlib.Tactic.IntervalCases
 import Mathlib.Tactic.LinearCombination
 import Splipy.Lemmas.C03Dispatch
 import Splipy.Lemmas.C03Nonrational
+import Splipy.Properties.C01
 
 /-!
 # C03 — derivatives are the true partial derivatives of the evaluated map
@@ -17,55 +18,154 @@ variable {K : Type} [Field K] [LinearOrder K] [FloorRing K]
 
 /-! ## Non-rational objects -/
 
-/-- **Curves, non-rational.**  `derivative(t, d, above)` is `Σ_j P_j · dB(j, d)(t)`, the `d`-th derivative of
-the evaluated map taken from the side `above` selects.
-PARTIAL: (1) the C01 statement "row entry of `Basis.evaluate` = `dB`" is the hypothesis `RowsAreDB`
-(non-periodic direction / unwrapped, parameter in the domain) because `Properties/C01.lean` is not finished;
-(2) tensor grid only. -/
+section nonrational
+variable [IsStrictOrderedRing K]
+
+/-- The points of one direction of a call are "good": exact w.r.t. the knot tolerance (a knot or at least
+`tol` away from every knot — automatic after snapping when distinct knots are `tol` apart,
+`C01_evaluate_snap`), inside the domain, and not the start of a non-periodic direction approached from the
+left (there the code returns the zero row, `C01_start_from_left`). -/
+def C03_GoodPoints (b : Basis K) (tol : K) (ts : List K) (a : Bool) : Prop :=
+  ∀ k, k < ts.length →
+    b.ExactAt tol (ts.getD k 0) ∧ b.start ≤ ts.getD k 0 ∧ ts.getD k 0 ≤ b.stop ∧
+      (b.periodic = -1 → ¬ (ts.getD k 0 = b.start ∧ a = false))
+
+/-- C01 for the rows of one direction: every entry of `basis.evaluate(t_k, d, side)` is the specification
+value `Basis.rowSpec` — the one-sided `d`-th derivative `dB` of the B-spline (non-periodic), the sum of its
+wrapped images (periodic) — for EVERY derivative order (orders ≥ the spline order give zero on both sides). -/
+theorem C03_rows {b : Basis K} (hv : b.Valid) {tol : K} (htol : 0 < tol) (ts : List K) (d : ℕ) (a : Bool)
+    (hpts : C03_GoodPoints b tol ts a) :
+    RowsAre b tol ts d a (fun k j => b.rowSpec (ts.getD k 0) a d j) := by
+  intro k hk j hj
+  obtain ⟨hex, h1, h2, hnot⟩ := hpts k hk
+  show (b.evaluate tol (ts.getD k 0) d a).getD j 0 = b.rowSpec (ts.getD k 0) a d j
+  unfold Basis.rowSpec
+  by_cases hd : d < b.order
+  · by_cases hper : b.periodic < 0
+    · have hper' : b.periodic = -1 := by have := hv.periodic_ge; omega
+      rw [if_pos hper]
+      exact C01_value_deriv_open hv hper' htol hex h1 h2 (hnot hper') hd hj
+    · rw [if_neg hper]
+      exact C01_value_deriv_periodic hv (by omega) htol hex h1 h2 a hd hj
+  · have hd' : b.order ≤ d := by omega
+    rw [C01_high_derivative_zero b tol _ hd' a]
+    have hz : (Array.replicate b.numFunctions (0 : K)).getD j 0 = 0 := by
+      unfold Array.getD; split <;> simp
+    rw [hz]
+    by_cases hper : b.periodic < 0
+    · rw [if_pos hper, C01_high_derivative_zero_spec b hv.order_pos _ _ hd']
+    · rw [if_neg hper]
+      symm
+      apply Finset.sum_eq_zero
+      intro i _
+      exact C01_high_derivative_zero_spec b hv.order_pos _ _ hd' i
+
+/-- **Curves, non-rational** (open or periodic basis).  `derivative(t, d, above)` is
+`Σ_j rowSpec_j · P_j`: the `d`-th one-sided derivative of the evaluated map.
+PARTIAL only in: tensor-grid form (for a curve `tensor=False` is the same computation), parameters
+satisfying `C03_GoodPoints` (snapped, in the domain). -/
 theorem C03_nonrational_curve_partial (o : Obj K) (b : Basis K) (hb : o.bases.toList = [b]) (n nc : ℕ)
-    (hs : o.cps.shape = [n, nc]) (hn : n = b.numFunctions) (tol : K) (ts ts' : List K) (d : ℕ) (a : Bool)
-    (r : Tensor K) (hr : o.rational = false)
+    (hs : o.cps.shape = [n, nc]) (hn : n = b.numFunctions) (hvb : b.Valid) (tol : K) (htol : 0 < tol)
+    (ts ts' : List K) (d : ℕ) (a : Bool) (r : Tensor K) (hr : o.rational = false)
     (hv : o.validateDomain tol [ts] = .ok [ts'])
     (h : o.derivativeGeneric tol [ts] [d] [a] true = .ok r)
-    (hC01 : RowsAreDB b tol ts' d a) :
+    (hpts : C03_GoodPoints b tol ts' a) :
     ∀ k, k < ts'.length → ∀ c, c < nc →
       r.get (k * nc + c) =
-        splineDeriv (sideOf a) b.kn (b.order - 1) n (fun j => o.cps.get (j * nc + c)) d (ts'.getD k 0) :=
-  Obj.derivative_nonrational_curve o b hb n nc hs hn tol ts ts' d a r hr hv h hC01
+        (Finset.range n).sum (fun j => b.rowSpec (ts'.getD k 0) a d j * o.cps.get (j * nc + c)) :=
+  Obj.derivative_nonrational_curve o b hb n nc hs hn tol ts ts' d a r hr hv h _
+    (C03_rows hvb htol ts' d a hpts)
 
-/-- **Surfaces, non-rational** (same two restrictions as the curve case): the mixed partial
-`Σ_{ij} dB_i^{(d₁)}(u) dB_j^{(d₂)}(v) P_{ij}` with per-direction sides. -/
+/-- Non-periodic curve: the sum of `C03_nonrational_curve_partial` is the specification's
+`splineDeriv` (side forced to `left` at the end of the domain). -/
+theorem C03_nonrational_curve_open (b : Basis K) (hper : b.periodic = -1) (n : ℕ) (P : ℕ → K)
+    (t : K) (a : Bool) (d : ℕ) :
+    (Finset.range n).sum (fun j => b.rowSpec t a d j * P j) =
+      splineDeriv (effSide b t a) b.kn (b.order - 1) n P d t := by
+  unfold splineDeriv Basis.rowSpec
+  have hlt : b.periodic < 0 := by rw [hper]; decide
+  simp only [if_pos hlt]
+  apply Finset.sum_congr rfl
+  intro j _
+  ring
+
+omit [FloorRing K] in
+/-- Regrouping wrapped images: `Σ_{j<n} (Σ_{i<N, i ≡ j} f i) P_j = Σ_{i<N} f i · P_{i mod n}`. -/
+theorem C03_sum_wrapped (f : ℕ → K) (P : ℕ → K) (n N : ℕ) (hn : 0 < n) :
+    (Finset.range n).sum (fun j => ((Finset.range N).filter (fun i => i % n = j)).sum f * P j) =
+      (Finset.range N).sum (fun i => f i * P (i % n)) := by
+  have h1 : ∀ j ∈ Finset.range n,
+      ((Finset.range N).filter (fun i => i % n = j)).sum f * P j =
+        (Finset.range N).sum (fun i => if i % n = j then f i * P (i % n) else 0) := by
+    intro j _
+    rw [Finset.sum_mul, Finset.sum_filter]
+    apply Finset.sum_congr rfl
+    intro i _
+    by_cases h : i % n = j
+    · rw [if_pos h, if_pos h, h]
+    · rw [if_neg h, if_neg h]
+  rw [Finset.sum_congr rfl h1, Finset.sum_comm]
+  apply Finset.sum_congr rfl
+  intro i _
+  rw [Finset.sum_ite_eq, if_pos (Finset.mem_range.mpr (Nat.mod_lt _ hn))]
+
+/-- Periodic curve: the sum of `C03_nonrational_curve_partial` is the derivative of the UNWRAPPED spline
+over all `nAll` functions with the wrapped control points `P (i % n)`, at the effective point/side
+(the left limit at the seam `start` is the left limit at `stop`). -/
+theorem C03_nonrational_curve_periodic (b : Basis K) (hper : 0 ≤ b.periodic) (hn : 0 < b.numFunctions)
+    (P : ℕ → K) (t : K) (a : Bool) (d : ℕ) :
+    (Finset.range b.numFunctions).sum (fun j => b.rowSpec t a d j * P j) =
+      splineDeriv (periodicEff b t a).2 b.kn (b.order - 1) b.nAll (fun i => P (i % b.numFunctions)) d
+        (periodicEff b t a).1 := by
+  unfold splineDeriv Basis.rowSpec
+  have hlt : ¬ b.periodic < 0 := by omega
+  simp only [if_neg hlt]
+  rw [C03_sum_wrapped _ P b.numFunctions b.nAll hn]
+  apply Finset.sum_congr rfl
+  intro i _
+  ring
+
+/-- **Surfaces, non-rational** (each direction open or periodic), tensor grid: the mixed partial
+`Σ_{ij} rowSpec¹_i(u) rowSpec²_j(v) P_{ij}` with per-direction derivative orders and sides.
+PARTIAL only in: tensor-grid form, `C03_GoodPoints` parameters. -/
 theorem C03_nonrational_surface_partial (o : Obj K) (b1 b2 : Basis K) (hb : o.bases.toList = [b1, b2])
     (n1 n2 nc : ℕ) (hs : o.cps.shape = [n1, n2, nc]) (hn1 : n1 = b1.numFunctions) (hn2 : n2 = b2.numFunctions)
-    (tol : K) (us vs us' vs' : List K) (d1 d2 : ℕ) (a1 a2 : Bool) (r : Tensor K) (hr : o.rational = false)
+    (hv1 : b1.Valid) (hv2 : b2.Valid) (tol : K) (htol : 0 < tol)
+    (us vs us' vs' : List K) (d1 d2 : ℕ) (a1 a2 : Bool) (r : Tensor K) (hr : o.rational = false)
     (hv : o.validateDomain tol [us, vs] = .ok [us', vs'])
     (h : o.derivativeGeneric tol [us, vs] [d1, d2] [a1, a2] true = .ok r)
-    (hC01u : RowsAreDB b1 tol us' d1 a1) (hC01v : RowsAreDB b2 tol vs' d2 a2) :
+    (hpu : C03_GoodPoints b1 tol us' a1) (hpv : C03_GoodPoints b2 tol vs' a2) :
     ∀ k1, k1 < us'.length → ∀ k2, k2 < vs'.length → ∀ c, c < nc →
       r.get ((k1 * vs'.length + k2) * nc + c) =
-        tensorDeriv2 (sideOf a1) (sideOf a2) b1.kn b2.kn (b1.order - 1) (b2.order - 1) n1 n2
-          (fun i j => o.cps.get ((i * n2 + j) * nc + c)) d1 d2 (us'.getD k1 0) (vs'.getD k2 0) :=
+        (Finset.range n1).sum (fun i => b1.rowSpec (us'.getD k1 0) a1 d1 i *
+          (Finset.range n2).sum (fun j => b2.rowSpec (vs'.getD k2 0) a2 d2 j *
+            o.cps.get ((i * n2 + j) * nc + c))) :=
   Obj.derivative_nonrational_surface o b1 b2 hb n1 n2 nc hs hn1 hn2 tol us vs us' vs' d1 d2 a1 a2 r hr hv h
-    hC01u hC01v
+    _ _ (C03_rows hv1 htol us' d1 a1 hpu) (C03_rows hv2 htol vs' d2 a2 hpv)
 
-/-- **Volumes, non-rational** (same two restrictions). -/
+/-- **Volumes, non-rational**, tensor grid (same reading). -/
 theorem C03_nonrational_volume_partial (o : Obj K) (b1 b2 b3 : Basis K)
     (hb : o.bases.toList = [b1, b2, b3])
     (n1 n2 n3 nc : ℕ) (hs : o.cps.shape = [n1, n2, n3, nc]) (hn1 : n1 = b1.numFunctions)
     (hn2 : n2 = b2.numFunctions) (hn3 : n3 = b3.numFunctions)
-    (tol : K) (us vs ws us' vs' ws' : List K) (d1 d2 d3 : ℕ) (a1 a2 a3 : Bool) (r : Tensor K)
+    (hv1 : b1.Valid) (hv2 : b2.Valid) (hv3 : b3.Valid) (tol : K) (htol : 0 < tol)
+    (us vs ws us' vs' ws' : List K) (d1 d2 d3 : ℕ) (a1 a2 a3 : Bool) (r : Tensor K)
     (hr : o.rational = false)
     (hv : o.validateDomain tol [us, vs, ws] = .ok [us', vs', ws'])
     (h : o.derivativeGeneric tol [us, vs, ws] [d1, d2, d3] [a1, a2, a3] true = .ok r)
-    (hC01u : RowsAreDB b1 tol us' d1 a1) (hC01v : RowsAreDB b2 tol vs' d2 a2)
-    (hC01w : RowsAreDB b3 tol ws' d3 a3) :
+    (hpu : C03_GoodPoints b1 tol us' a1) (hpv : C03_GoodPoints b2 tol vs' a2)
+    (hpw : C03_GoodPoints b3 tol ws' a3) :
     ∀ k1, k1 < us'.length → ∀ k2, k2 < vs'.length → ∀ k3, k3 < ws'.length → ∀ c, c < nc →
       r.get (((k1 * vs'.length + k2) * ws'.length + k3) * nc + c) =
-        tensorDeriv3 (sideOf a1) (sideOf a2) (sideOf a3) b1.kn b2.kn b3.kn (b1.order - 1) (b2.order - 1)
-          (b3.order - 1) n1 n2 n3 (fun i j k => o.cps.get (((i * n2 + j) * n3 + k) * nc + c)) d1 d2 d3
-          (us'.getD k1 0) (vs'.getD k2 0) (ws'.getD k3 0) :=
+        (Finset.range n1).sum (fun i => b1.rowSpec (us'.getD k1 0) a1 d1 i *
+          (Finset.range n2).sum (fun j => b2.rowSpec (vs'.getD k2 0) a2 d2 j *
+            (Finset.range n3).sum (fun k => b3.rowSpec (ws'.getD k3 0) a3 d3 k *
+              o.cps.get (((i * n2 + j) * n3 + k) * nc + c)))) :=
   Obj.derivative_nonrational_volume o b1 b2 b3 hb n1 n2 n3 nc hs hn1 hn2 hn3 tol us vs ws us' vs' ws'
-    d1 d2 d3 a1 a2 a3 r hr hv h hC01u hC01v hC01w
+    d1 d2 d3 a1 a2 a3 r hr hv h _ _ _ (C03_rows hv1 htol us' d1 a1 hpu) (C03_rows hv2 htol vs' d2 a2 hpv)
+    (C03_rows hv3 htol ws' d3 a3 hpw)
+
+end nonrational
 
 /-- The derivative of a non-rational object (any parametric dimension, `tensor` either way) is by
 definition the contraction of the control net with the per-direction `Basis.evaluate(·, d_k, side_k)`
@@ -515,3 +615,13 @@ example : let τ : ℕ → ℚ := fun i => if i < 3 then 0 else 1
 dispatch on tuples. -/
 example : soundOn curveOutcome 1 (ints 5 ++ tuples 1 5 ++ lists 1 5) = true := by decide
 example : soundOn surfaceOutcome 2 (tuples 2 4) = true := by decide
+
+/-- `C03_GoodPoints` is satisfiable (the open example basis of C01, `t = 1/2`, from the right). -/
+example : C03_GoodPoints (K := ℚ) C01_exOpen (1/1000) [1/2] true := by
+  intro k hk
+  have hk0 : k = 0 := by simpa using hk
+  subst hk0
+  refine ⟨by simpa using C01_exOpen_exact_half, ?_, ?_, ?_⟩
+  · rw [C01_exOpen_start]; norm_num
+  · rw [C01_exOpen_stop]; norm_num
+  · intro _ h; exact absurd h.2 (by decide)
